@@ -2,6 +2,7 @@ import LivesimVerif.Model.ChunkParser
 import LivesimVerif.Model.Limiter
 import LivesimVerif.Model.Scte
 import LivesimVerif.Model.Subs
+import LivesimVerif.Model.Chunk
 import Driver.Util
 import Driver.Recv
 import Driver.Core
@@ -82,12 +83,28 @@ def opCue (args : List String) : String :=
       "[" ++ joinWith "," (cues.map fun c => s!"({c.start - startS * 1000},{c.stop - startS * 1000},{c.utcS})") ++ "]"
   | _ => "bad-op"
 
+/-! ### C09: `chunk <chunkDur> <newTime> <d,d,d,...>` → per chunk (samples, first decode time, dur field, styp) -/
+def opChunk (args : List String) : String :=
+  match args with
+  | [cd, t0, ds] =>
+    match cd.toNat?, t0.toNat?, natList ds with
+    | some cd, some t0, some durs =>
+      if cd = 0 then "PANIC divzero" else
+      let cs := Chunk.chunkSegment durs cd
+      let rec go : List Chunk.Ch → Nat → Bool → List String
+        | [], _, _ => []
+        | c :: rest, t, first => s!"({c.n},{t},{c.dur},{boolStr first})" :: go rest (t + c.real) false
+      "[" ++ joinWith "," (go cs t0 true) ++ "]"
+    | _, _, _ => "bad-op"
+  | _ => "bad-op"
+
 def step (st : DState2) (line : String) : DState2 × String :=
   match (line.trimAscii.toString.splitOn " ").filter (· ≠ "") with
   | "parse" :: args => (st, opParse args)
   | "lim" :: args => (st, opLim args)
   | "scte" :: args => (st, opScte args)
   | "cue" :: args => (st, opCue args)
+  | "chunk" :: args => (st, opChunk args)
   | "ctr" :: args => (st, opCtr args)
   | "buf" :: args => (st, opBuf args)
   | "gen" :: args => (st, opGen args)
